@@ -507,7 +507,8 @@ class The(ResultQuantifier[T]):
                 result = sources
             else:
                 raise NoSolutionFound(self._child_)
-        else:
+        elif self._var_:
+            # a set of variables has no single variable that this quantifier could stand for.
             result[self._id_] = result[self._var_._id_]
         return result
 
